@@ -314,11 +314,13 @@ static void do_call(char *p) {
   size_t len = lenflag ? BUFLEN : 0;
   hwloc_bitmap_t set = hwloc_bitmap_alloc(), o = hwloc_bitmap_alloc();
   hwloc_membind_policy_t opol = (hwloc_membind_policy_t)0;
-  int ret = 0, e, fret = 0, helper, known = 1; pid_t pid; pthread_t th; void *ptr;
+  int ret = 0, e, fret = 0, helper, known = 1, is_get; pid_t pid; pthread_t th; void *ptr;
   if (!op || !tgt || !topo) { hwloc_bitmap_free(set); hwloc_bitmap_free(o); return; }
   helper = !strcmp(tgt, "helper");
   if (helper && !have_helper) { hwloc_bitmap_free(set); hwloc_bitmap_free(o); return; }
   resolve(set, spec);
+  is_get = !strncmp(op, "get_", 4);
+  if (is_get) hwloc_bitmap_only(o, OUT_IDX - 1);   /* sentinel: shows whether the call wrote its output */
   pid = helper ? helper_tid : getpid();
   th = helper ? helper_th : pthread_self();
   nsys = 0; nq = 0; sysovf = 0; errno = 0; armed = 1;
